@@ -61,8 +61,8 @@ static int val_of(const void *p) {
 }
 
 /* ------------------------------------------------------------------ hash functions ------------------ */
-enum { H_ZERO, H_CONST, H_IDENT, H_LAST, H_TWO, H_HIGH, NHASH };
-static const char *HASHN[NHASH] = {"zero", "const", "ident", "last", "two", "high"};
+enum { H_ZERO, H_CONST, H_IDENT, H_LAST, H_TWO, H_HIGH, H_NULLCODE, NHASH };
+static const char *HASHN[NHASH] = {"zero", "const", "ident", "last", "two", "high", "nullcode"};
 static uint64_t raw_hash(int kind, int id) {
     switch (kind) {
         case H_ZERO: return 0;                                             /* library turns 0 into 1 */
@@ -70,6 +70,10 @@ static uint64_t raw_hash(int kind, int id) {
         case H_IDENT: return (uint64_t)id;                                 /* k0 -> 0 -> 1 collides with k1 */
         case H_LAST: return ((uint64_t)(id + 1) << 8) | 0xFF;              /* distinct codes, home = last slot, spill to 0.. */
         case H_TWO: return ((uint64_t)id << 8) | ((id & 1) ? 0x0F : 0x0E); /* two adjacent clusters at the end of the array */
+        case H_NULLCODE: return 42;                                        /* the fixed code the library gives the NULL key: every key
+                                                                              collides with a stored NULL key, hash codes equal (added
+                                                                              after a seeded change that passed a stored NULL key on to
+                                                                              the user's equality function) */
         default: return (uint64_t)(id + 1) << 61;                          /* only high bits: home 0 for every size */
     }
 }
@@ -81,7 +85,8 @@ DEF_HASH(hf_ident, H_IDENT)
 DEF_HASH(hf_last, H_LAST)
 DEF_HASH(hf_two, H_TWO)
 DEF_HASH(hf_high, H_HIGH)
-static aws_hash_fn *HF[NHASH] = {hf_zero, hf_const, hf_ident, hf_last, hf_two, hf_high};
+DEF_HASH(hf_nullcode, H_NULLCODE)
+static aws_hash_fn *HF[NHASH] = {hf_zero, hf_const, hf_ident, hf_last, hf_two, hf_high, hf_nullcode};
 static bool key_eq(const void *a, const void *b) {
     return ((const struct kobj *)a)->id == ((const struct kobj *)b)->id;
 }
@@ -855,6 +860,10 @@ int main(int argc, char **argv) {
     if (want(only, "full"))
         for (int h = 0; h < NHASH; ++h) {
             if (!th && (h == H_ZERO || h == H_HIGH)) continue;
+            if (!th && h == H_NULLCODE) {
+                run_cfg(P_FULL, h, 0, 0, 0, 0, 0); /* quick: one destructor-less run is enough to exercise NULL/eq */
+                continue;
+            }
             for (int d = 3; d >= (th ? 0 : 3); --d)
                 for (int s = 0; s < (th ? 2 : 1); ++s) run_cfg(P_FULL, h, sizes_q[s], d, 0, 0, 0);
         }
